@@ -311,9 +311,9 @@ def scenario(rng):
 def scenario_p2p(rng, k):
     """peer-to-peer clauses: naming per recipient, push addressing, two participants only, modes within JRWPA with A, numbering
     and cached data across the load paths of initTopicP2P (new topic / one subscription missing / both present)"""
-    out = _preamble(rng, modes={u: rng.choice(["JRWPAS", "JRWPAS", "JRWPA", "JRPA", "N"]) for u in ("U1", "U2", "U3", "U4")})
+    out = _preamble(rng, modes={u: rng.choice(["JRWPAS"] * 7 + ["JRWPA", "JRPA", "N"]) for u in ("U1", "U2", "U3", "U4")})
     (sa, ua), (sb, ub) = rng.choice([(("S1", "U1"), ("S2", "U2")), (("S2", "U2"), ("S3", "U3")), (("S3", "U3"), ("S1", "U1")),
-                                     (("S7", "U3"), ("S4", "U1")), (("S1", "U1"), ("S5", "U2")), (("S6", "U4"), ("S1", "U1"))])
+                                     (("S7", "U3"), ("S4", "U1")), (("S1", "U1"), ("S5", "U2"))] * 3 + [(("S6", "U4"), ("S1", "U1"))])
     key = "P:" + ":".join(sorted([ua, ub]))
     third = [u for u in ("U1", "U2", "U3", "U4") if u not in (ua, ub)][0]
     n = [0]
@@ -330,9 +330,9 @@ def scenario_p2p(rng, k):
             out.append(f"leave {sb} {ua}")
             out.append(f"unload {key}")
 
-    out.append(f"sub {sa} {ub}" + rng.choice(["", " mode=JRWPA", " mode=JRW", " mode=JRWPASDO", " priv=pvA", " mode=JRWP priv=pvA", " user=" + ub]))
+    out.append(f"sub {sa} {ub}" + rng.choice(["", "", " mode=JRWPA", " mode=JRW", " mode=JRWPASDO", " priv=pvA", " mode=JRWP priv=pvA", " user=" + ub]))
     if k == 11:     # the life of a p2p chat: both attach, talk, one leaves for good, is invited again, comes back
-        out.append(f"sub {sb} {ua}" + rng.choice(["", " mode=JRWPA", " priv=pvB", " mode=JRP"]))
+        out.append(f"sub {sb} {ua}" + rng.choice(["", "", " mode=JRWPA", " priv=pvB", " mode=JRP"]))
         for _ in range(1 + rng.below(3)):
             pub(rng.choice([sa, sb]), ub if rng.chance(1, 2) else ua)
         pub(sa, ub)
